@@ -72,7 +72,7 @@ PROPS = {
         'trusted_base': [], 'not_decided': [],
     },
     'C10': {
-        'technique': 'Verus contracts on the extracted text of ModelParameter::{mul, mul_add_assign} (IEEE ops uninterpreted); Kani harnesses on the real body of VoiceSet::weighted (cut from the tree every run, shim receiver) and on mul / mul_add_assign with exact-scaling weight constants',
+        'technique': 'Verus contracts on the extracted text of ModelParameter::{mul, mul_add_assign} (IEEE ops uninterpreted); Kani harnesses on the real body of VoiceSet::weighted (cut from the tree every run, shim receiver) and on mul / mul_add_assign with exact-scaling weight constants (mul alone with weights 1/2, 2, 1/4 in the hole-free module K-modelmul)',
         'level_text': 'unbounded proof (any weight, any vector length) that one accumulation step yields exactly lhs + weight*rhs per mean/variance/msd component and that mul scales every component; Kani (bit-precise, all parameter values): weights (1,0) return the first parameter set unchanged, (.5,.5) gives p0*.5 + .5*p1, msd presence follows the first voice',
         'level_note': 'PARTIAL: the fold of VoiceSet::weighted (voice v paired with weight v, in order, any sign) is checked bounded only: its real body under a shim receiver, 2 voices (3 in the thorough tier), concrete values; which weight vector, model and state feed durations / stream parameters / GV statistics in Models is checked bounded on the statements and closure bodies of Models::{duration, stream, gv} cut from their text (K-models-slice, shim environment); the label-major / state-minor layout produced by their flat_map / collect chains and the state range 2..2+nstate are NOT decided (the chains exhaust CBMC); floats are uninterpreted in Verus (no rounding claims)',
         'verus': ['interp'],
@@ -106,7 +106,7 @@ PROPS = {
         'verus': [],
         'assumptions': ['nom 8, serde, jlabel-question, regex never panic and never loop on empty matches (not verified)'],
         'trusted_base': [],
-        'not_decided': ['whole-file quantifier (any byte sequence)', 'allocation bounds beyond the window-row count (nom many_m_n caps assumed)', 'convert_tree beyond one-node trees', 'key slicing beyond 5-byte ASCII keys'],
+        'not_decided': ['whole-file quantifier (any byte sequence)', 'allocation bounds beyond the window-row count and the PDF block (rows handed back <= values consumed, checked bounded on the block reader with stand-ins that follow nom 8.0.0: must-consume guard of many_m_n, none in count; nom initial-capacity cap assumed)', 'convert_tree beyond one-node trees', 'key slicing beyond 5-byte ASCII keys'],
     },
     'C13': {
         'technique': 'Verus contracts on the extracted text of LineSpectralPairs::{lsp2lpc, lsp2mgc}, Generalized::{gnorm, ignorm}, MelGeneralizedCepstrum::{gc2gc, mgc2mgc} and MelGeneralizedLogSpectrumApproximation::{df, dff} (IEEE ops, cos, exp, ln, powf uninterpreted); the two iterator-chain holes and an API-level polynomial-product harness checked by Kani; bit-precise Kani runs of the real gc2gc / gnorm / ignorm and of the MGLSA filter (alpha = 0) on exact dyadic inputs against the SPTK definitions and the direct-form all-pole cascade (K-mgc, K-mglsa)',
